@@ -467,7 +467,7 @@ pub fn c06(cfg: &Cfg, idx: u64, st: &mut Stats) {
                 crate::multi::MemFront::FstFromIterSet,
                 crate::multi::MemFront::FstFromIterMap,
             ][(variant - 8) as usize];
-            st.report("C06", &Case::FromIter(crate::multi::FromIterCase { entry, items }));
+            st.report("C06", &Case::FromIter(crate::multi::FromIterCase { entry, items, hint: (h % 4) as u8 }));
         } else {
             let case = c06_exhaustive_case(h, variant, maxlen);
             st.report("C06", &Case::Build(case));
@@ -600,7 +600,7 @@ pub fn c06(cfg: &Cfg, idx: u64, st: &mut Stats) {
         } else {
             *rng.pick(&[crate::multi::MemFront::MapFromIter, crate::multi::MemFront::FstFromIterMap])
         };
-        st.report("C06", &Case::FromIter(crate::multi::FromIterCase { entry, items }));
+        st.report("C06", &Case::FromIter(crate::multi::FromIterCase { entry, items, hint: rng.below(4) as u8 }));
         return;
     }
     let case = BuildCase {
@@ -1202,7 +1202,7 @@ pub fn c08(cfg: &Cfg, idx: u64, st: &mut Stats) {
             let set_like = matches!(entry, MF::SetFromIter | MF::FstFromIterSet);
             gen::sequence(&mut rng, 12, !set_like)
         };
-        st.report("C08", &Case::FromIter(crate::multi::FromIterCase { entry, items }));
+        st.report("C08", &Case::FromIter(crate::multi::FromIterCase { entry, items, hint: (k % 4) as u8 }));
         return;
     }
     if idx == files {
